@@ -217,7 +217,11 @@ class C03(Check):
     def make_case(self, rng):
         r = rng.random()
         case = {"spec": None, "prev": [], "limit_us": 10_000_000, "call": 1 if rng.random() < 0.3 else 0}
-        if r < 0.04:
+        if r < 0.012:
+            # instances without any operation (the empty schedule, makespan 0, is the optimum)
+            case["spec"] = rng.choice([[[]], [], [[], []], [[], [], []]])
+            self.note("instance_without_operations")
+        elif r < 0.04:
             case["spec"] = self._instance(rng, flexible=True)
             self.note("flexible_stream")
         elif r < 0.12:
@@ -368,11 +372,11 @@ class C03(Check):
                                  expected=model_result, observed=impl_result))
 
         # --- the property itself, on the implementation's output -----------------
-        if n_ops == 0:
-            if exc == 5:
-                fails.append(Failure("oracle", "no-solution-empty-instance",
-                                     "instance without operations: NoSolutionFoundError although the empty "
-                                     "schedule is feasible and complete (AddMaxEquality over no expression)"))
+        if n_ops == 0 and exc == 5 and not tiny:
+            # regression guard of the repaired defect (fix a437e37): AddMaxEquality over no end time
+            fails.append(Failure("oracle", "no-solution-empty-instance",
+                                 "instance without operations: NoSolutionFoundError although the empty "
+                                 "schedule is feasible and complete (AddMaxEquality over no expression)"))
             return fails
         if tiny:
             self.note("tiny_limit_no_solution" if exc == 5 else "tiny_limit_solved_anyway")
